@@ -1,11 +1,11 @@
 #!/bin/bash
 # usage: tools/save_seeded.sh <ID> <n> "<what it needs to manifest>" "<detected: yes|no>" "<violation classes / remarks>"
 ID=$1; N=$2; NEEDS=$3; DET=$4; CLS=$5
-SRC=/tmp/wt-out/$ID/$N; DST=/verif/seeded/$ID-$N
+SRC=${SRCROOT:-/tmp/wt-out}/$ID/$N; AS=${AS:-$N}; DST=/verif/seeded/$ID-$AS
 mkdir -p $DST
 cp $SRC/patch.diff $SRC/demo_test.go $DST/
 [ -f $SRC/notes.md ] && cp $SRC/notes.md $DST/
-python3 - "$ID" "$N" "$NEEDS" "$DET" "$CLS" <<'PY'
+python3 - "$ID" "$AS" "$NEEDS" "$DET" "$CLS" <<'PY'
 import json,sys,subprocess
 ID,N,needs,det,cls=sys.argv[1:6]
 files=[l[6:].strip() for l in open(f'/verif/seeded/{ID}-{N}/patch.diff') if l.startswith('+++ b/')]
